@@ -116,6 +116,19 @@ Definition any_secondary (a : N) : bool := 0 <? a.   (* the pinned tree: Seconda
 Definition secondary_slot_author_idx (c : cfg) (slot : N) : option N :=
   match secondary_slot_author slot (Z.of_N (n_auth c)) (randomness c) with Ok a => Some a | _ => None end.
 
+(* guard of the finding secondary-kind-not-checked: the first digest item is a well-formed
+   secondary claim of the kind the configuration does not name *)
+Definition wrong_kind (c : cfg) (dg : list item) : bool :=
+  match dg with
+  | PreRuntime _ data :: _ =>
+    match decode_predigest data with
+    | Some (SecPlain _ _) => allowed c =? 2
+    | Some (SecVRF _ _ _ _) => allowed c =? 1
+    | _ => false
+    end
+  | _ => false
+  end.
+
 Section Verify.
   Variable R : Type.                      (* the header fields other than the digest *)
   Variable key_valid : N -> bool.
